@@ -147,6 +147,12 @@ class JobBoundMonitor(Monitor):
                     kind = 'starting' if sm.starting_jobs else 'stopping'
                     if kind == 'starting' and self._waits_for_exit(inst):
                         continue
+                    # a job requested recently (e.g. a conciliation repeated because a STOPPED publication was lost and
+                    # the copy stays listed) is a new job, still within its own bound: the property is per job
+                    last = self.last_request.get((inst.idx, inst.incarnation, kind))
+                    if last is not None and self._counter(inst) - last <= self.bound[kind]:
+                        self.flags.add('recent-job-at-the-end')
+                        continue
                     out.append((f'job-pending-after-suffix:{kind}', f'{inst.nick} still reports {kind} jobs after the quiet '
                                 f'suffix: {self._describe(inst, kind)}'))
         return out
